@@ -419,6 +419,7 @@ def check(repo, run, tier):
     g(unitrules.subbuilder_request, repo, run, 'C06.R10')
     g(unitrules.include_init, repo, run, 'C06.R2')
     g(unitrules.stream_init, repo, run, 'C06.R7')
+    g(unitrules.path_node_tables, repo, run, 'C06.R6')
     g.done()
 
 
@@ -436,6 +437,8 @@ def merge_two(r):
 
 def mutants(repo):
     return [
+        Mutant('parent-clamp-negated', lambda r: in_func(r, 'PathNode.ayns.on_evaluate_impl', "if ref_point_args >= len(src.parents):", "if not ref_point_args >= len(src.parents):"), ['C06.R6']),
+        Mutant('path-ref-point-parse', lambda r: in_func(r, 'PathNode.__init__', "            if parent_match:\n                idx = 0", "            if not parent_match:\n                idx = 0"), ['C06.R6']),
         Mutant('include-as-raw-yaml', lambda r: in_func(r, 'IncludeNode.ayns.on_preprocess_impl', "subbuilder.add_source(file, raw_yaml=False, safe=self.ayns.safe)", "subbuilder.add_source(file, safe=self.ayns.safe)"), ['C06.R2']),
         Mutant('include-one-name-split', lambda r: in_func(r, 'IncludeNode.__init__', "if not isinstance(filenames, cabc.Sequence) or isinstance(filenames, str):", "if not isinstance(filenames, cabc.Sequence) and isinstance(filenames, str):"), ['C06.R2']),
         Mutant('stream-without-stages', lambda r: in_func(r, 'StreamNode.__init__', "        super().__init__(builder.stages, **kwargs)\n", ""), ['C06.R7']),
